@@ -26,7 +26,7 @@ handle / record / destination / cache, unusual schemas, call orders. Each change
 `bin/confirm_mutant` in a scratch worktree (its demonstration passes on the unchanged tree; with the
 change both modules build, the full existing suite passes, the demonstration fails) and is kept under
 `/verif/seeded/<id>/` (patch.diff, demo_test.go, README.md, meta.json). `bin/run_seeded quick`
-re-runs the property's check against every change.
+re-runs the property's check against every change; the last complete run is kept in `seeded/MATRIX.txt`.
 
 **Missed by the check as it stood when the change arrived: round 1: {cnt[1][1]} of {cnt[1][0]}; round 2: {cnt[2][1]} of {cnt[2][0]};
 round 3: {cnt[3][1]} of {cnt[3][0]}; round 4: {cnt[4][1]} of {cnt[4][0]}; round 5: {cnt[5][1]} of {cnt[5][0]}; round 6: {cnt[6][1]} of {cnt[6][0]}; round 7: {cnt[7][1]} of {cnt[7][0]}; round 8: {cnt[8][1]} of {cnt[8][0]}.** The share of misses does not fall from round to round: every round's
